@@ -315,10 +315,47 @@ pub fn replay_flow(case: &Value, rep: &mut Report) {
         Ok(n) => n,
         Err(e) => {
             rep.mismatch(prop, "network_rejected_by_builder", &id, json!({"panic": e}), case);
+            if mode == "fb" {
+                rep.mismatch("C08", "valid_block_rejected_by_builder", &id, json!({"panic": e}), case);
+            }
             return;
         }
     };
     rep.nontrivial(id.clone());
+    // C08 inside feedback blocks: the (in -> out) shapes the block prints for its unrolled layers are those of the size
+    // formulas for the configuration the caller wrote
+    if mode == "fb" {
+        let text = format!("{}", net);
+        let mut printed: Vec<Vec<(Vec<usize>, Vec<usize>)>> = Vec::new();
+        for line in text.lines() {
+            if line.trim_start().starts_with("Feedback (") || line.contains(": Feedback (") {
+                printed.push(Vec::new());
+            } else if line.starts_with("\t\t\t\t") && line.contains(" -> ") && line.trim_end().ends_with(')') {
+                if let (Some(open), Some(block)) = (line.rfind('('), printed.last_mut()) {
+                    let inner = &line[open + 1..line.trim_end().len() - 1];
+                    if let Some(pos) = inner.find(" -> ") {
+                        block.push((parse_shape(inner[..pos].trim()), parse_shape(inner[pos + 4..].trim())));
+                    }
+                }
+            }
+        }
+        let blocks: Vec<&Value> = layers.iter().filter(|l| str_of(l, "kind") == "fb").collect();
+        if printed.len() == blocks.len() {
+            for (b, l) in blocks.iter().enumerate() {
+                let inner = l["inner"].as_array().unwrap();
+                for (j, (pin, pout)) in printed[b].iter().enumerate() {
+                    let want = &inner[j % inner.len()];
+                    let (win, wout) = (usizes(&want["in"]), usizes(&want["out"]));
+                    rep.checks += 1;
+                    if *pin != win || *pout != wout {
+                        rep.mismatch("C08", "announced_shape_inside_feedback_block", &id, json!({"block": b, "unrolled_layer": j, "announced": [pin, pout], "expected": [win, wout]}), case);
+                        break;
+                    }
+                }
+            }
+            rep.count("feedback_inner_shapes_read", printed.iter().map(|p| p.len() as u64).sum());
+        }
+    }
     // ---- the behaviour: connect / loopback calls with their contract outcome ----
     for (i, step) in case["steps"].as_array().unwrap().iter().enumerate() {
         let want = str_of(step, "outcome");
